@@ -25,6 +25,7 @@ from typing import Any, Dict, List, Optional
 import z3
 
 import baize.asgi.requests as AQ
+import baize.asgi.responses as AR
 import baize.datastructures as DS
 import baize.requests as RQ
 import baize.responses as R
@@ -77,6 +78,47 @@ def rt_shims() -> Shims:
     return s
 
 
+def emitted_cookie_line(via: str, name, value):
+    """the Set-Cookie text a client receives: read off the response object ('direct'), or off what the response -- called as an application, bare or
+    behind one identity middleware of its own stack -- hands to the server"""
+    if via == "direct":
+        r = WR.Response()
+        r.set_cookie(name, value)
+        return [v for k, v in r.list_headers(as_bytes=False) if k == "set-cookie"]
+    from . import c05 as C5
+    from . import c20 as C20
+    from . import gw
+    iface = via.split("-")[0]
+    r = (WR if iface == "wsgi" else AR).Response()
+    r.set_cookie(name, value)
+    app = r
+    if via.endswith("middleware"):
+        if iface == "wsgi":
+            app = C20.WM.middleware(lambda request, next_call: next_call(request))(r)
+        else:
+            async def handler(request, next_call):
+                return await next_call(request)
+            app = C20.AM.middleware(handler)(r)
+    if iface == "wsgi":
+        ev, done = gw.run_wsgi(app, C5.environ("GET"))
+        st, hd, body = gw.norm_wsgi(ev)
+    else:
+        if Engine.cur is None:  # concrete replay: a real event loop
+            import asyncio
+            ev = []
+
+            async def send(m_):
+                ev.append(("send", m_))
+
+            async def receive():
+                await asyncio.sleep(3600)
+            asyncio.run(asyncio.wait_for(app(C5.scope("GET"), receive, send), 30))
+        else:
+            ev, done = gw.run_asgi(app, C5.scope("GET"), use_loop=True)
+        st, hd, body = gw.norm_asgi(ev)
+    return [v for k, v in hd if isinstance(k, str) and k.lower() == "set-cookie"]
+
+
 def pair_items(line) -> List[Any]:
     """'name=value' part of a Set-Cookie line (before the first attribute), placeholders mapped back to terms"""
     e = cur()
@@ -110,13 +152,20 @@ def job_roundtrip(job) -> report.JobResult:
         value = SStr([next(it) if ch == "*" else ord(ch) for ch in job["vtemplate"]])
         lv = len(value.items)
     shims = rt_shims()
+    via = job.get("via", "direct")
+    if via != "direct":
+        eng.char_alphabet = "c1"  # the line is encoded for the server: placeholders of the same encoding class as the character they stand for
+        from . import c20 as C20
+        have = {(m_, k_) for m_, k_, _ in shims.entries}
+        shims.entries += [en for en in C20.make_shims().entries if (en[0], en[1]) not in have]
     SSeq.NORMALIZE = False
     SSeq.CONST_HASH = True
 
     def fn():
-        r = WR.Response()
-        r.set_cookie(name, value)
-        line = [v for k, v in r.list_headers(as_bytes=False) if k == "set-cookie"][0]
+        lines = emitted_cookie_line(via, name, value)
+        if len(lines) != 1:
+            raise Fail("set-cookie-lines-reaching-the-client", f"{len(lines)} (one cookie was set)")
+        line = lines[0]
         pair = pair_items(line)
         wire = list(pair)
         if among:
@@ -129,6 +178,8 @@ def job_roundtrip(job) -> report.JobResult:
         klass = detail = None
         try:
             if kind == "exc":
+                if isinstance(val, Fail):
+                    raise val
                 raise Fail(f"exception:{type(val).__name__}", repr(val))
             if twin:
                 raise Fail("twin-assert-false")
@@ -161,7 +212,7 @@ def job_roundtrip(job) -> report.JobResult:
         if klass not in ("serialisation-not-ascii", "value-altered"):
             e.last_sat = False
         m = e.witness()
-        wit = {"name": conc(name, m), "value": conc(value, m), "iface": iface, "among": among}
+        wit = {"name": conc(name, m), "value": conc(value, m), "iface": iface, "among": among, "via": via}
         with shims.off():
             cp = concrete_roundtrip(wit)
         if klass is not None:
@@ -192,6 +243,16 @@ def concrete_roundtrip(w) -> Optional[str]:
             r.set_cookie(w["name"], w["value"])
             line = [v for k, v in r.list_headers(as_bytes=False) if k == "set-cookie"][0]
             raw = [v for k, v in r.list_headers(as_bytes=True) if k == b"set-cookie"][0]
+            if w.get("via", "direct") != "direct":
+                prev = Engine.cur
+                Engine.cur = None
+                try:
+                    lines = emitted_cookie_line(w["via"], w["name"], w["value"])
+                finally:
+                    Engine.cur = prev
+                if len(lines) != 1:
+                    return f"{len(lines)} Set-Cookie lines reach the client ({w['via']}) for one cookie set"
+                line = lines[0]
         except Exception as ex:  # noqa: BLE001
             return f"exception {type(ex).__name__}: {ex}"
         pair = line.split("; path=")[0]
@@ -593,6 +654,11 @@ def jobs(tier: str):
     for iface in ("wsgi", "asgi"):
         for t in ("\\***", "*\\**") if tier == "quick" else ("\\***", "*\\**", "\\****", "**\\***", "\"**\""):
             out.append(dict(name=f"roundtrip/{iface}/alone/n1/shape:{t}", kind="roundtrip", iface=iface, among=False, ln=1, lv=len(t), vtemplate=t, weight=6 ** t.count("*")))
+    # the line as it reaches the server: the response called as an application, bare and behind one identity middleware of its stack
+    for via in ("wsgi-app", "asgi-app", "wsgi-middleware", "asgi-middleware"):
+        for lv in (1, 2):
+            out.append(dict(name=f"roundtrip/{via.split('-')[0]}/alone/n1v{lv}/emitted-through:{via}", kind="roundtrip", iface=via.split("-")[0], among=False,
+                            ln=1, lv=lv, via=via, weight=6 ** lv * 3))
     out.append(dict(name="twin/roundtrip", kind="roundtrip", iface="wsgi", among=False, ln=1, lv=1, twin=True))
     for mode in ("set", "set-noexp", "delete"):
         out.append(dict(name=f"expiry/{mode}", kind="expiry", mode=mode))
